@@ -87,6 +87,34 @@ pub fn mk<A: Default>(new: fn() -> A, use_default: bool) -> A {
     if use_default { A::default() } else { new() }
 }
 
+/// History for an arithmetic object: a layered update of an unrelated row (twice, so that the stored
+/// messages are not the defaults) before the rule under test is evaluated on the same object.
+pub fn layered_warm<A: ldpc_toolbox::decoder::arithmetic::DecoderArithmetic>(a: &mut A, llrs: &[f64]) {
+    use ldpc_toolbox::decoder::SentMessage;
+    if llrs.len() < 2 {
+        return;
+    }
+    let llrs = &llrs[..llrs.len().min(16)];
+    let mut vars: Vec<A::VarLlr> = llrs.iter().map(|&x| a.llr_to_var_llr(a.input_llr_quantize(x))).collect();
+    let mut msgs: Vec<SentMessage<A::CheckMessage>> = (0..llrs.len()).map(|i| SentMessage { dest: i, value: A::CheckMessage::default() }).collect();
+    let _ = crate::engine::guarded(|| {
+        a.update_check_messages_and_vars(&mut msgs, &mut vars);
+        a.update_check_messages_and_vars(&mut msgs, &mut vars);
+    });
+}
+
+/// History for an arithmetic object: the flooding check-node rule on an unrelated check.
+pub fn flooding_warm<A: ldpc_toolbox::decoder::arithmetic::DecoderArithmetic>(a: &mut A, llrs: &[f64]) {
+    use ldpc_toolbox::decoder::Message;
+    if llrs.len() < 2 {
+        return;
+    }
+    // (the check rule is quadratic in the degree for some arithmetics: a short check suffices)
+    let llrs = &llrs[..llrs.len().min(12)];
+    let msgs: Vec<Message<A::VarMessage>> = llrs.iter().enumerate().map(|(i, &x)| Message { source: 7 + 2 * i, value: a.llr_to_var_message(a.input_llr_quantize(x)) }).collect();
+    let _ = crate::engine::guarded(|| a.send_check_messages(&msgs, |_| {}));
+}
+
 /// Build the decoder a name *states*: HL prefix = horizontal layered, otherwise
 /// flooding; the remainder is the arithmetic type. Independent of the factory.
 pub fn build_direct(name: &str, h: SparseMatrix) -> Option<Box<dyn LdpcDecoder>> {
